@@ -18,6 +18,11 @@ func c13Configs(thorough bool) []lockCfg {
 		{Name: "one-max3-tk2thr", Powers: []uint64{2}, MaxValidators: 3, Tk2Weight: 3, Tk2Threshold: 1, Candidates: 3},
 		{Name: "rich-v0-max2", Powers: []uint64{5, 2}, MaxValidators: 2, Tk2Weight: 0, Tk2Threshold: 0, Candidates: 3}, // stays above the threshold after a slash
 	}
+	// a non-initial corner: the menu's candidate starts in jail (holding 4.9 btc, above the
+	// threshold) next to a validator whose power also comes from the second token, so that the
+	// first token's weight can drop to zero without emptying the set
+	cs = append(cs, lockCfg{Name: "jailed-candidate+tk2-anchor", Powers: []uint64{2}, MaxValidators: 2, Tk2Weight: 3, Tk2Threshold: 0, Candidates: 2,
+		V0Tk2: amt(1), Jailed: []jailSpec{{Btc: theta.MulRaw(49).QuoRaw(10).String()}}, JailSecs: 30})
 	if thorough {
 		cs = append(cs, lockCfg{Name: "three-tied-max2", Powers: []uint64{2, 2, 2}, MaxValidators: 2, Tk2Weight: 1, Tk2Threshold: 0, Candidates: 4})
 	}
@@ -208,7 +213,7 @@ func runC13(r *mc.Run) {
 	r.Bounds["depth_blocks_small_configs"] = depth - 1
 	for _, c := range cfgs {
 		d := depth
-		if c.Name == "two-max1" || c.Name == "one-max3-tk2thr" {
+		if c.Name == "two-max1" || c.Name == "one-max3-tk2thr" || c.Name == "jailed-candidate+tk2-anchor" {
 			d = depth - 1 // smaller worlds get one level less; the budget goes to the two richer ones
 		}
 		e := &engb.Explorer{Run: r, NewRoot: c.newRoot, Menu: c13Menu(c, r.Thorough()), Monitor: c13Monitor(r, c), Depth: d, ConformanceDepth: 2}
